@@ -73,6 +73,10 @@ def gen(rng, facts):
                     cs.append(a_log(min(u1, u2))); cs.append(('tick', 1)); cs.append(a_flush(max(u1, u2))); cs.append(('tick', g + 1 if g else 2))
                 if rng.random() < 0.3: cs.append(('resume', rng.randrange(nt)))
                 inj.append((y, v, cs))
+            if g and rng.random() < 0.15:
+                # D5 shape: a thread logs for the first time after the poll's cache refresh and before the clock is read; a
+                # known thread then asks for a flush, and more than the grace period passes before the clock read
+                inj.append((1, 0, [a_log(nt), ('tick', 1), a_flush(rng.randrange(nt)), ('tick', g + 1)]))
             c.poll(inj)
     c.mark_tail()
     for _ in range(5):
@@ -89,6 +93,17 @@ def corpus_cases(facts):
     c = Case(grace=1000, soft=4, hard=8, loggers=[(0, [0, 1])], sinks=[(0, []), (0, [])], facts=facts)
     c.log(1); c.tick(1); c.log(0); c.tick(1); c.flush(0); c.tick(5000)
     for _ in range(6): c.poll()
+    c.resume(0)
+    out.append(c)
+    # D5 shape (fixed): first log of thread 1 between the cache refresh and the clock read of a poll, then thread 0's flush
+    c = Case(grace=1000, soft=4, hard=8, facts=facts)
+    c.log(0); c.tick(3000)
+    for _ in range(3): c.poll()
+    i1 = c.next_id; i2 = c.next_id + 1; c.next_id += 2
+    c.poll([(1, 0, [('log', 1, i1, 0, 4, HDR_LOG, 0, False), ('tick', 1), ('flush', 0, i2, 0, SZ_FLUSH), ('tick', 1001)])])
+    for _ in range(4): c.poll(); c.resume(0)
+    c.tick(5000)
+    for _ in range(4): c.poll()
     c.resume(0)
     out.append(c)
     # dropping queue filled before the flush request: the request is retried, never discarded
